@@ -30,6 +30,7 @@ BUILTIN_EXC = {
     "RuntimeError": "Exception",
     "StopIteration": "Exception",
     "OSError": "Exception",
+    "ConnectionError": "OSError",
     "MemoryError": "Exception",
     "InvalidSignature": "Exception",
     "UnsupportedAlgorithm": "Exception",
@@ -134,20 +135,20 @@ class Index:
             return module.classes[name]
         return self.classes.get(name)
 
-    def function(self, qual: str, registry=None):
+    def function(self, qual: str, registry=None, variant=None):
         """qual = 'quic/stream.py::QuicStreamSender.get_frame' or 'quic/packet.py::decode_packet_number', or a REGION
         'quic/connection.py::QuicConnection._write_application@streams': a block contract on consecutive statements of the
         real function, extracted mechanically on every run (see region_node)."""
         rel, name = qual.split("::")
         m = self.modules[rel]
         if "@" in name:
-            return self.region_node(m, name, registry)
+            return self.region_node(m, name, registry, variant)
         if "." in name:
             c, f = name.split(".", 1)
             return m, m.classes[c], m.classes[c].methods[f]
         return m, None, m.functions[name]
 
-    def region_node(self, m, name, registry):
+    def region_node(self, m, name, registry, variant=None):
         """Block contract: the statements starting at the contract's `anchor` (unparsed statement text / compound header,
         optional '#n' for the n-th match; `span` consecutive statements, default 1) of the real function are wrapped,
         unchanged, into a synthetic FunctionDef whose parameters are `self` plus the locals the contract declares in
@@ -159,12 +160,33 @@ class Index:
         cls = m.classes[c] if c else None
         fn = cls.methods[f] if cls else m.functions[f]
         contract = registry.contracts.get(name) if registry is not None else None
+        if variant and registry is not None and registry.contracts.get(name + "#" + variant) is not None and registry.contracts[name + "#" + variant].region:
+            # (C19) a VARIANT of a block contract ("Cls.fn@label#variant") may carry its own region (and need no plain twin)
+            contract = registry.contracts[name + "#" + variant]
         if contract is None:
             raise KeyError("no region contract %s" % name)
         from .stmts import _head  # noqa
 
         text, _, nth = contract.region["anchor"].partition("#")
         nth = int(nth) if nth else 0
+        if text == "sync-stretch":
+            # (C19) the SYNCHRONOUS STRETCH of a coroutine function: the whole body of the `async def`, where every
+            # statement of the form `await <expr>` (the coroutine suspends there; what runs before it ran to completion like
+            # a callback) is replaced by `return`.  An `await` in any other position (`x = await f()`, `return await ..`)
+            # is not supported.  A body without `await` is taken as it is.
+            import copy
+
+            class _Cut(ast.NodeTransformer):
+                def visit_Expr(self, node):
+                    if isinstance(node.value, ast.Await):
+                        return ast.copy_location(ast.Return(value=None), node)
+                    return self.generic_visit(node)
+
+                def visit_Await(self, node):
+                    raise KeyError("sync-stretch of %s: `await` in expression position is not supported" % fname)
+
+            stmts = [_Cut().visit(copy.deepcopy(st)) for st in fn.body]
+            return self._region_fn(m, cls, f, label, contract, stmts)
         if text.startswith("calls:"):
             # semantic anchor: the statement containing a call of attribute/function `<name>` (n-th such statement),
             # widened to the innermost enclosing for/while loop ("widen": "loop", the default; the loop may enclose the
